@@ -3,7 +3,7 @@
    option value, every trace and every struct-name table. *)
 From XSG.Model Require Import Strings Chars Convert Necessity Element Render RustRender.
 From XSG.Generated Require Import RenderRs.
-From XSG.Proofs Require Import ElementProofs RenderProofs NamesRsProofs.
+From XSG.Proofs Require Import ElementProofs RenderProofs OrderProofs NamesRsProofs.
 From Coq Require Import String List Lia.
 Import ListNotations.
 Open Scope list_scope.
@@ -194,3 +194,92 @@ Lemma source_example :
   /\ to_serde_struct_rs 3 r srt = Some (to_serde_struct srt r)
   /\ to_serde_struct quick_xml_de r <> to_serde_struct srt r.
 Proof. vm_compute. repeat split. discriminate. Qed.
+
+(* ====================================================================== *)
+(* the reading of `sort_unstable_by_key` as insertion sort                 *)
+(* ====================================================================== *)
+From Coq Require Import Permutation Sorted.
+
+(* with pairwise distinct keys there is exactly one sorted arrangement of a list: whatever
+   algorithm std's unstable sort uses, if it returns a sorted permutation it returns `isort` *)
+Lemma sorted_perm_unique {A K} (leb : A -> A -> bool) (key : A -> K) :
+  (forall a b c, leb a b = true -> leb b c = true -> leb a c = true) ->
+  (forall a b, leb a b = true -> leb b a = true -> key a = key b) ->
+  forall l l', NoDup (map key l) -> Permutation l l' ->
+    Sorted (lebR leb) l -> Sorted (lebR leb) l' -> l = l'.
+Proof.
+  intros tr anti l l' Hnd Hp Hs Hs'.
+  apply Sorted_StronglySorted in Hs; [|intros a b c; apply tr].
+  apply Sorted_StronglySorted in Hs'; [|intros a b c; apply tr].
+  revert l' Hnd Hp Hs'. induction Hs as [|x r Hr IH Hx]; intros l' Hnd Hp Hs'.
+  - now apply Permutation_nil in Hp.
+  - destruct l' as [|y r']; [apply Permutation_sym, Permutation_nil in Hp; discriminate|].
+    inversion Hs' as [|? ? Hr' Hy]; subst.
+    cbn [map] in Hnd. inversion Hnd as [|? ? Hnotin Hnd']; subst.
+    assert (Exy : x = y).
+    { assert (Hin : In x (y :: r')) by (eapply Permutation_in; [exact Hp|now left]).
+      destruct Hin as [->|Hin]; [reflexivity|].
+      assert (Hin2 : In y (x :: r)) by (eapply Permutation_in; [apply Permutation_sym; exact Hp|now left]).
+      destruct Hin2 as [->|Hin2]; [reflexivity|].
+      rewrite Forall_forall in Hx, Hy.
+      pose proof (anti x y (Hx y Hin2) (Hy x Hin)) as Ek.
+      exfalso. apply Hnotin. rewrite Ek. now apply in_map. }
+    subst y. f_equal. apply IH; [exact Hnd'| |exact Hr'].
+    now apply Permutation_cons_inv in Hp.
+Qed.
+
+Lemma any_sort_is_isort {A K} (leb : A -> A -> bool) (key : A -> K) :
+  (forall a b, leb a b = true \/ leb b a = true) ->
+  (forall a b c, leb a b = true -> leb b c = true -> leb a c = true) ->
+  (forall a b, leb a b = true -> leb b a = true -> key a = key b) ->
+  forall l l', NoDup (map key l) -> Permutation l l' -> Sorted (lebR leb) l' -> l' = isort leb l.
+Proof.
+  intros total tr anti l l' Hnd Hp Hs.
+  apply (sorted_perm_unique leb key tr anti).
+  - eapply Permutation_NoDup; [|exact Hnd]. now apply Permutation_map.
+  - eapply Permutation_trans; [apply Permutation_sym; exact Hp|apply isort_perm].
+  - exact Hs.
+  - now apply isort_sorted.
+Qed.
+
+(* the two instances the renderer uses *)
+Lemma str_leb_antisym a b : str_leb a b = true -> str_leb b a = true -> a = b.
+Proof.
+  unfold str_leb. rewrite !Bool.negb_true_iff. intros H1 H2.
+  now apply OrderProofs.str_ltb_tricho.
+Qed.
+
+Lemma sort_by_key_str_any {A} (key : A -> str) l l' :
+  NoDup (map key l) -> Permutation l l' ->
+  Sorted (fun a b => str_leb (key a) (key b) = true) l' -> l' = sort_by_key_str key l.
+Proof.
+  intros Hnd Hp Hs. unfold sort_by_key_str.
+  apply (any_sort_is_isort (fun a b => str_leb (key a) (key b)) key); auto.
+  - intros a b. apply str_leb_total.
+  - intros a b c. apply str_leb_trans.
+  - intros a b. apply str_leb_antisym.
+Qed.
+
+Lemma pos_leb_total a b : pos_leb a b = true \/ pos_leb b a = true.
+Proof. destruct a as [x|], b as [y|]; cbn; auto. destruct (Nat.leb_spec x y); [now left|right]. apply Nat.leb_le. lia. Qed.
+Lemma pos_leb_trans a b c : pos_leb a b = true -> pos_leb b c = true -> pos_leb a c = true.
+Proof.
+  destruct a as [x|], b as [y|], c as [z|]; cbn; auto; try discriminate.
+  rewrite !Nat.leb_le. lia.
+Qed.
+Lemma pos_leb_antisym a b : pos_leb a b = true -> pos_leb b a = true -> a = b.
+Proof.
+  destruct a as [x|], b as [y|]; cbn; auto; try discriminate.
+  rewrite !Nat.leb_le. intros. f_equal. lia.
+Qed.
+
+Lemma sort_by_key_pos_any {A} (key : A -> option nat) l l' :
+  NoDup (map key l) -> Permutation l l' ->
+  Sorted (fun a b => pos_leb (key a) (key b) = true) l' -> l' = sort_by_key_pos key l.
+Proof.
+  intros Hnd Hp Hs. unfold sort_by_key_pos.
+  apply (any_sort_is_isort (fun a b => pos_leb (key a) (key b)) key); auto.
+  - intros a b. apply pos_leb_total.
+  - intros a b c. apply pos_leb_trans.
+  - intros a b. apply pos_leb_antisym.
+Qed.
